@@ -24,7 +24,24 @@ if [ -n "$RACE" ]; then
   export GORACE="halt_on_error=0 log_path=$RL"
   export VERIF_RACELOG="$RL"
 fi
-"$ROOT/.bin/$BIN" "$ID" --tier "$TIER"
+OUT="$ROOT/.work/out-$ID-$$.log"
+"$ROOT/.bin/$BIN" "$ID" --tier "$TIER" > "$OUT" 2>&1
 RC=$?
+cat "$OUT"
 [ -n "$RACE" ] && rm -f "$RL".*
+if [ $RC -ne 0 ] && [ $RC -ne 1 ]; then
+  # The process died. A panic / fatal error raised inside badger code while the property's
+  # workload ran on valid API usage is a violation; anything else is a harness failure.
+  if grep -q "^panic:\|^fatal error:" "$OUT" && grep -q "github.com/dgraph-io/badger/v4" "$OUT"; then
+    mkdir -p "$ROOT/replay/$ID"
+    CR="$ROOT/replay/$ID/crash-seed${VERIF_SEED:-1}.log"
+    cp "$OUT" "$CR"
+    echo "VIOLATION property=$ID replay=$CR"
+    echo "  signature: $ID|process-crash-in-badger"
+    rm -f "$OUT"
+    exit 1
+  fi
+  echo "HARNESS-FAILURE property=$ID exit=$RC"
+fi
+rm -f "$OUT"
 exit $RC
